@@ -427,6 +427,11 @@ def makeReply (e : Env) (s : Str) : Out :=
 def wire (e : Env) (o : Out) : Str :=
   ':' :: (e.botPrefix ++ ' ' :: (o.command ++ ' ' :: (o.target ++ ' ' :: ':' :: (o.payload ++ ['\r', '\n']))))
 
+/-- the line as the server REALLY relays it: with the hostmask `p` the server knows for the bot.
+`Env.botPrefix` (`irc.prefix`) is only the bot's belief of it. -/
+def wireAs (p : Str) (o : Out) : Str :=
+  ':' :: (p ++ ' ' :: (o.command ++ ' ' :: (o.target ++ ' ' :: ':' :: (o.payload ++ ['\r', '\n']))))
+
 /-! ## NestedCommandsIrcProxy.reply: the length-checked branch -/
 
 structure Cfg where
